@@ -69,6 +69,49 @@ def lattice_violations(m, tol=1e-12):
     return out, n
 
 
+# ---------------------------------------------------------------------- non-emitting filter invariant
+def ne_filter_violations(m, any_round=False):
+    """After a FRESH match (round 0; or, with any_round=True, after extension-only histories WITHOUT width pruning, where
+    every pair of columns is still processed exactly once, emitting step first): a non-emitting candidate for a node/edge s between observations i and i+1 is only
+    kept when it is closer to the observation segment than the candidate for s that the emitting step created at
+    observation i+1 (strictly closer for node states, not farther by more than 1e-8 for edge states) - irrespective of
+    whether that candidate was postponed by the width pruning.  This is what keeps the search space of a pruned run
+    inside that of the unpruned run.  -> (violations, number of non-emitting entries compared)"""
+    out = []
+    n = 0
+    lat = m.lattice
+    if lat is None or (m.expand_now != 0 and not any_round):
+        return out, n
+    for i in sorted(lat):
+        if i + 1 not in lat:
+            continue
+        nxt = {}
+        for e in lat[i + 1].values(0):
+            if e.stop:
+                continue
+            preds = list(e.prev) + list(e.prev_other)
+            if any(p.obs == i and p.obs_ne == 0 for p in preds):
+                nxt[e.shortkey] = e
+        if not nxt:
+            continue
+        for k in range(1, len(lat[i].o)):
+            for x in lat[i].o[k].values():
+                if x.stop:
+                    continue
+                e = nxt.get(x.shortkey)
+                if e is None:
+                    continue
+                n += 1
+                if isinstance(x.shortkey, tuple):
+                    ok = x.dist_obs <= e.dist_obs + 1e-8
+                else:
+                    ok = x.dist_obs < e.dist_obs
+                if not ok:
+                    out.append(("non-emitting-candidate-kept-although-not-closer-than-the-next-observations-candidate",
+                                f"{x.key} dist {x.dist_obs!r} vs {e.key} dist {e.dist_obs!r} (delayed={e.delayed})"))
+    return out, n
+
+
 # -------------------------------------------------------------------------------- window monitor
 class WindowMonitor:
     """Online monitor of width pruning.  Installed on BaseMatcher/BaseMatching class attributes;
